@@ -75,6 +75,10 @@ pub enum Ev {
 
 pub const PANIC_MARK: &str = "hv-task-panic";
 
+/// Payload of the panics raised with `panic_any`: a task may panic with any `Any + Send` value, not only a string.
+#[derive(Debug)]
+pub struct TaskPanicPayload(pub u32);
+
 pub struct Log {
     pub events: Mutex<Vec<Ev>>,
     pub running: AtomicUsize,
@@ -131,7 +135,7 @@ fn make_task(log: Arc<Log>, id: usize, kind: TaskKind, env: &'static dyn Env) ->
                 log.running.fetch_sub(1, Ordering::SeqCst);
                 log.push(Ev::Panic(id));
                 log.done.fetch_add(1, Ordering::SeqCst);
-                panic!("{}", PANIC_MARK);
+                std::panic::panic_any(TaskPanicPayload(id as u32));
             }
         }
         log.running.fetch_sub(1, Ordering::SeqCst);
@@ -408,6 +412,7 @@ pub fn silence_task_panics() {
     let prev = std::panic::take_hook();
     std::panic::set_hook(Box::new(move |info| {
         let is_task = info.payload().downcast_ref::<String>().map(|s| s.contains(PANIC_MARK)).unwrap_or(false) || info.payload().downcast_ref::<&str>().map(|s| s.contains(PANIC_MARK)).unwrap_or(false);
+        let is_task = is_task || info.payload().downcast_ref::<TaskPanicPayload>().is_some();
         if !is_task {
             prev(info);
         }
